@@ -15,7 +15,9 @@ EXTENDS Integers, Sequences, FiniteSets, TLC
 
 CONSTANTS N,            \* positions 0..N-1
           MaxItems,     \* size of the inputs (matches, tokens, candidates)
-          Mech          \* "sweep" | "tokens" | "addto"
+          Mech,         \* "sweep" | "tokens" | "addto"
+          DropStraddler \* addto: TRUE = a candidate that partially overlaps a kept entity is never added (after the fix
+                        \* commit 1d34b0830); FALSE = it replaces the entities it covers even so (before)
 
 Pos == 0..(N - 1)
 SpansIncl == { s \in Pos \X Pos : s[1] <= s[2] }
@@ -76,8 +78,9 @@ AddStep ==
   /\ LET v == input[2][work.k]
          found == \E i \in 1..Len(out) : Overlap(out[i], v)
          cov == { i \in 1..Len(out) : Overlap(out[i], v) /\ CoveredBy(out[i], v) }
+         partial == \E i \in 1..Len(out) : Overlap(out[i], v) /\ ~CoveredBy(out[i], v)
      IN IF ~found THEN out' = Append(out, v)
-        ELSE IF cov # {} THEN
+        ELSE IF cov # {} /\ ~(DropStraddler /\ partial) THEN
              LET first == CHOOSE i \in cov : \A j \in cov : i <= j
                  rest == SelectSeq([i \in 1..Len(out) |-> <<i, out[i]>>], LAMBDA x : x[1] \notin cov)
                  restSpans == [i \in 1..Len(rest) |-> rest[i][2]]
@@ -100,8 +103,10 @@ SweepOK == (Mech = "sweep" /\ pc = "done") =>
   /\ \A a, b \in 1..Len(out) : a < b => out[a][2] + 1 < out[b][1]
 (* tokens: results pairwise disjoint (exclusive ends) *)
 TokDisjoint == (Mech = "tokens" /\ pc = "done") => \A a, b \in 1..Len(out) : a # b => (out[a][2] <= out[b][1] \/ out[b][2] <= out[a][1])
-(* addto: disjointness is preserved under the environment assumption that no candidate strictly covers one kept
-   entity while partially overlapping another; without the assumption it is not (design-level counterexample) *)
+(* addto: disjointness is preserved when a candidate that partially overlaps a kept entity is never added
+   (DropStraddler, the code after the fix).  Before the fix it held only under the environment assumption that no
+   candidate strictly covers one kept entity while partially overlapping another (EnvNoStraddle); without the
+   assumption TLC finds the counterexample that recognize_datetime('I said 2000-07-01 yesterday.') showed in the code *)
 Straddles(q, v) == \E i, j \in 1..Len(q) : i # j /\ Overlap(q[i], v) /\ CoveredBy(q[i], v) /\ Overlap(q[j], v) /\ ~CoveredBy(q[j], v)
 AddDisjoint == Mech = "addto" => DisjointSeq(out)
 NoStraddleSoFar == Mech = "addto" => \A k \in 1..(work.k - 1) : TRUE
